@@ -90,6 +90,8 @@ def c19():
     return Check("C19", [
         Leg("cli", "cli_c19", fn=cli_c19.run, label="cli:c19"),
         Leg("asan-cli", "cli_c19", fn=cli_c19.run, label="asan-cli:c19", tiers=("thorough",), args={"fraction": 0.25}, seed_offset=1000),
+        Leg("cli", "cli_c19", fn=cli_c19.run, label="valgrind-cli:c19", tiers=("thorough",), seed_offset=2000,
+            args={"fraction": 0.012, "no_deep": True, "wrapper": ["valgrind", "-q", "--error-exitcode=99", "--exit-on-first-error=no"]}),
     ])
 
 
@@ -178,6 +180,48 @@ def c13():
         Leg("lib-default", "c13", shards=(2, 8)),
         Leg("miri-base", "c13", shards=(1, 2), tiers=("thorough",), timeout=MIRI_T),
         Leg("miri-avx2", "c13", shards=(1, 2), tiers=("thorough",), timeout=MIRI_T),
+    ])
+
+
+META["C17"] = dict(
+    text="YamlIndex::from_parts is fed arbitrary start/end position sequences (compact monotone encodings with duplicates, dense fallback after an inversion, zeros = no end, positions == text_len, sizes around 0/1/63..65/255..257/10k) and random lookup histories (sequential, stride, backward, repeats, out of range) through all five lookup entry points; the model is the two Vec<u32>. A never-queried clone is compared during the history, and fresh clones are swept forward and in reverse afterwards (history independence). History classes are counted and required. Miri base + avx2 in the thorough tier.",
+    note="For nodes without a recorded end exactly the two answers the property allows are accepted. One known finding (documented zero-fill artefact with end sequences the parser never produces).",
+    technique=SAN + "reference-model monitor over lookup histories + Miri")
+
+META["C20"] = dict(
+    text="Dispatcher, scalar, SSE2, AVX2 and BMI2 DSV engines are compared with each other and with a bit-serial toggle-on-every-quote scan on marker/newline words, counts and rank1/select1 sweeps, for all 1,320 ordered triples of distinct bytes from a 12-byte alphabet (exhaustive) plus random triples, every text length 0..200, quote runs 0..6 ending at bit 63 and quoted regions spanning 0..5 chunks. Miri base and avx2 (PDEP toggle interpreted) in the thorough tier.",
+    note="NEON engine not runnable on this host. The bit-serial scan is the anchor.",
+    technique=SAN + "engine differential anchored to a bit-serial model + Miri")
+
+META["C21"] = dict(
+    text="A quote-aware splitter written from the property text (two independent formulations cross-checked) is the oracle for rows()/fields(), row(n), DsvRow::get(i) (all n, i including out of range), DsvRef and cursor walks; exhaustive over every string of length 0..7 (9 thorough) over {delimiter, quote, LF, 'a'}, plus tables, soups, chunk-boundary texts under random configurations, and the append-a-separator metamorphic rule.",
+    note="row_count() is checked against its documented meaning (newline count). DsvCursor::next_field over a final delimiter may report either value (position-based API, documented).",
+    technique=SAN + "reference-splitter monitor, exhaustive on short strings + metamorphic rule")
+
+
+@plan("C17")
+def c17():
+    return Check("C17", [
+        Leg("lib-default", "c17", shards=(2, 8)),
+        Leg("miri-base", "c17", shards=(1, 2), tiers=("thorough",), timeout=MIRI_T),
+        Leg("miri-avx2", "c17", shards=(1, 1), tiers=("thorough",), timeout=MIRI_T),
+    ])
+
+
+@plan("C20")
+def c20():
+    return Check("C20", [
+        Leg("lib-default", "c20", shards=(2, 8)),
+        Leg("miri-base", "c20", shards=(1, 2), tiers=("thorough",), timeout=MIRI_T),
+        Leg("miri-avx2", "c20", shards=(1, 2), tiers=("thorough",), timeout=MIRI_T),
+    ])
+
+
+@plan("C21")
+def c21():
+    return Check("C21", [
+        Leg("lib-default", "c21", shards=(2, 8)),
+        Leg("miri-base", "c21", shards=(1, 1), tiers=("thorough",), timeout=MIRI_T),
     ])
 
 
